@@ -324,12 +324,12 @@ func (e *Engine) assumeValid(st *State, v Value) {
 		case l.Sort == smt.Str:
 			n := e.strLen(t)
 			st.assume(smt.Eq(smt.Eq(n, smt.BVLit(0, 64)), smt.Eq(t, e.strLit(""))))
-			st.assume(smt.And(smt.BVCmp("bvsge", n, smt.BVLit(0, 64)), smt.BVCmp("bvsle", n, smt.BVLit(1<<56, 64))))
+			st.assume(smt.And(smt.BVCmp("bvsge", n, smt.BVLit(0, 64)), smt.BVCmp("bvsle", n, smt.BVLit(1<<46, 64))))
 		}
 		if len(l.Path) >= 4 && l.Path[len(l.Path)-4:] == ".arr" && i+3 < len(ls) && ls[i+3].Path == l.Path[:len(l.Path)-4]+".cap" {
 			off, ln, cp := v.L[i+1], v.L[i+2], v.L[i+3]
 			z := smt.BVLit(0, 64)
-			big := smt.BVLit(1<<56, 64)
+			big := smt.BVLit(1<<46, 64) // no slice is larger than what the allocator can address (elements of at least one byte)
 			st.assume(smt.And(
 				smt.BVCmp("bvsle", z, off), smt.BVCmp("bvsle", off, big),
 				smt.BVCmp("bvsle", z, ln), smt.BVCmp("bvsle", ln, cp), smt.BVCmp("bvsle", cp, big),
